@@ -113,6 +113,16 @@ pub struct Machine {
 
 pub struct ConsoleCapture {
     file: std::fs::File,
+    pos: u64,
+}
+
+/// process-wide console capture for single-threaded run-loop drivers
+pub static CONSOLE: std::sync::Mutex<Option<ConsoleCapture>> = std::sync::Mutex::new(None);
+pub fn console_take() -> Vec<u8> {
+    match CONSOLE.lock().unwrap().as_mut() {
+        Some(c) => c.take_new(),
+        None => Vec::new(),
+    }
 }
 
 impl ConsoleCapture {
@@ -125,7 +135,14 @@ impl ConsoleCapture {
                 anyhow::bail!("dup2 failed");
             }
         }
-        Ok(ConsoleCapture { file })
+        Ok(ConsoleCapture { file, pos: 0 })
+    }
+    /// bytes written to fd 1 since the previous call
+    pub fn take_new(&mut self) -> Vec<u8> {
+        let p = self.pos;
+        let v = self.since(p);
+        self.pos += v.len() as u64;
+        v
     }
     fn mark(&mut self) -> u64 {
         use std::io::{Seek, SeekFrom, Write};
